@@ -104,7 +104,7 @@ type ask struct {
 	Stream  int    `json:"stream"`
 	Comp    bool   `json:"snappy,omitempty"`
 	Tracing bool   `json:"tracing,omitempty"`
-	Payload int    `json:"payload_entries,omitempty"` // 0 none, 1, 2 (second entry has a null value)
+	Payload int    `json:"payload_entries,omitempty"` // plNone (nil map), plOne, plTwo (second entry has a null value), plEmpty (non-nil map without entries)
 	Body    int    `json:"body_variant,omitempty"`    // STARTUP / AUTH_RESPONSE / REGISTER / PREPARE / statement variant
 	PrepKS  string `json:"prepare_keyspace,omitempty"`
 	IDLen   int    `json:"id_len,omitempty"`
@@ -134,7 +134,7 @@ func (a *ask) entryID(i int) []byte {
 
 func (a *ask) entryStmt(i int) string {
 	if a.EntryStmts != nil {
-		return a.EntryStmts[i]
+		return a.EntryStmts[i%len(a.EntryStmts)]
 	}
 	return statementVariant(i % 3)
 }
@@ -219,21 +219,33 @@ func pagingState(n int) []byte {
 	return p
 }
 
+// The custom-payload dimension: what the application hands to the driver.
+const (
+	plNone  = 0 // nil map
+	plOne   = 1 // one entry
+	plTwo   = 2 // two entries, one with an empty and one with a null value
+	plEmpty = 3 // a non-nil map without entries (e.g. built by a wrapper that had nothing to add)
+)
+
+var allPayloads = []int{plNone, plOne, plTwo, plEmpty}
+
 func payloadMap(n int) map[string][]byte {
 	switch n {
-	case 1:
+	case plOne:
 		return map[string][]byte{"k1": {1, 2, 3}}
-	case 2:
+	case plTwo:
 		return map[string][]byte{"k1": {}, "other-key": nil}
+	case plEmpty:
+		return map[string][]byte{}
 	}
 	return nil
 }
 
 func payloadKB(n int) []frame.KB {
 	switch n {
-	case 1:
+	case plOne:
 		return []frame.KB{{Key: "k1", Value: []byte{1, 2, 3}}}
-	case 2:
+	case plTwo:
 		return []frame.KB{{Key: "k1", Value: []byte{}}, {Key: "other-key", Value: nil}}
 	}
 	return nil
@@ -354,6 +366,42 @@ type expectation struct {
 	anyKindEntry  map[[2]int]bool
 	tsAny         bool // timestamp must be present, value is the wall clock
 	expectPayload []frame.KB
+	// payloadEmpty: a non-nil custom payload map without entries was asked. There is nothing to carry:
+	// the frame must either have no custom-payload flag and no [bytes map], or (v4+) the flag and a
+	// [bytes map] with n = 0. The flag without a map, or a map without the flag, is malformed.
+	payloadEmpty bool
+}
+
+// headerFlags returns the header flags the frame of the ask must carry and the bits that are "either way".
+func (ex *expectation) headerFlags(a *ask) (want, dontCare byte) {
+	dontCare = frame.FlagCompression
+	if a.Tracing {
+		want |= frame.FlagTracing
+	}
+	if a.Version >= 5 {
+		want |= frame.FlagBeta
+	}
+	if ex.expectPayload != nil {
+		want |= frame.FlagCustomPayload
+	}
+	if ex.payloadEmpty && a.Version >= 4 {
+		dontCare |= frame.FlagCustomPayload
+	}
+	return want, dontCare
+}
+
+// cmpPayload compares the decoded custom payload with the ask ("" = equal).
+func (ex *expectation) cmpPayload(req *frame.Request) string {
+	if ex.payloadEmpty {
+		if len(req.CustomPayload) != 0 {
+			return fmt.Sprintf("payload %v, asked an empty one", req.CustomPayload)
+		}
+		return ""
+	}
+	if (ex.expectPayload != nil) != req.HasCustomPayload || !sameKBSet(req.CustomPayload, ex.expectPayload) {
+		return fmt.Sprintf("payload %v, asked %v", req.CustomPayload, ex.expectPayload)
+	}
+	return ""
 }
 
 func expectValues(v int, mode, n int, kindOf func(int) int, ex *expectation, mark func(i int)) (vals []frame.Value, named bool) {
@@ -565,15 +613,30 @@ func expect(a *ask) *expectation {
 		}
 		ex.msg = m
 	}
-	if a.Payload > 0 {
+	switch {
+	case a.Payload == plEmpty:
+		ex.payloadEmpty = true
+		if v < 4 {
+			// custom payloads do not exist below v4: a driver may refuse any non-nil map; if it sends, the
+			// frame must not carry the (undefined) flag nor a map
+			addInexpr(ex, "empty-custom-payload<v4")
+		}
+	case a.Payload > 0:
 		if v >= 4 {
 			ex.expectPayload = payloadKB(a.Payload)
 		} else {
 			addInexpr(ex, "custom-payload<v4")
 		}
 	}
+	if a.Kind == kBatch && a.NEntries > maxCount {
+		// the statement count is a [short]: only the public path asks this (see live.go)
+		addInexpr(ex, "batch-statements>65535")
+	}
 	return ex
 }
+
+// maxCount is the largest count a [short] can carry.
+const maxCount = 65535
 
 // ---------------------------------------------------------------------------
 // Comparison of the decoded request with the expectation.
@@ -901,18 +964,9 @@ func evaluate(a *ask) outcome {
 		return bad("header.opcode", fmt.Sprintf("opcode %s", frame.OpName(h.Op)))
 	}
 	// flags
-	wantFlags := byte(0)
-	if a.Tracing {
-		wantFlags |= frame.FlagTracing
-	}
-	if a.Version >= 5 {
-		wantFlags |= frame.FlagBeta
-	}
-	if ex.expectPayload != nil {
-		wantFlags |= frame.FlagCustomPayload
-	}
-	if got := h.Flags &^ frame.FlagCompression; got != wantFlags {
-		return bad("header.flags", fmt.Sprintf("flags 0x%02x, expected 0x%02x (+compression bit)", h.Flags, wantFlags))
+	wantFlags, dontCare := ex.headerFlags(a)
+	if got := h.Flags &^ dontCare; got != wantFlags {
+		return bad("header.flags", fmt.Sprintf("flags 0x%02x, expected 0x%02x (either way: 0x%02x)", h.Flags, wantFlags, dontCare))
 	}
 	compressed := h.Flags&frame.FlagCompression != 0
 	if compressed {
@@ -932,15 +986,15 @@ func evaluate(a *ask) outcome {
 	if req.Tracing != a.Tracing {
 		return bad("field:tracing", "tracing flag")
 	}
-	if (ex.expectPayload != nil) != req.HasCustomPayload || !sameKBSet(req.CustomPayload, ex.expectPayload) {
-		return bad("field:custom_payload", fmt.Sprintf("payload %v, asked %v", req.CustomPayload, ex.expectPayload))
+	if d := ex.cmpPayload(req); d != "" {
+		return bad("field:custom_payload", d)
 	}
 	if f, d := cmpMsg(req.Msg, ex.msg, ex); f != "" {
 		return bad("field:"+f, d)
 	}
 	// with compression: the body must decompress to the uncompressed build (byte for
 	// byte where the build is deterministic: no map with 2+ entries, no wall clock)
-	if compressed && !ex.tsAny && a.Kind != kStartup && a.Payload < 2 {
+	if compressed && !ex.tsAny && a.Kind != kStartup && a.Payload != plTwo {
 		raw2, err2, pan2 := gocql.VerifBuild(byte(a.Version), nil, a.Tracing, a.Stream, a.toVerif())
 		if err2 != nil || pan2 != nil {
 			return bad("uncompressed-build-differs", fmt.Sprintf("uncompressed build failed: %v %v", err2, pan2))
@@ -1057,9 +1111,10 @@ func kindsOf(v int) []int {
 func payloadsOf(kind int) []int {
 	switch kind {
 	case kQuery, kPrepare, kExecute, kBatch:
-		return []int{0, 1, 2}
+		// the request kinds whose builder has a custom-payload field
+		return allPayloads
 	}
-	return []int{0}
+	return []int{plNone}
 }
 
 // smallBodies: the per-kind body variants crossed with every envelope.
@@ -1163,17 +1218,19 @@ func generators(thorough bool) []generator {
 		e env
 		d dims
 	}
-	plan := []s3{{env{false, false, 0}, reduced}}
+	// quick: the custom-payload dimension nil / empty non-nil / one entry crossed with the whole reduced product
+	plan := []s3{{env{false, false, plNone}, reduced}, {env{false, false, plEmpty}, reduced}, {env{false, false, plOne}, reduced}}
 	if thorough {
 		plan = nil
 		for _, c := range []bool{false, true} {
 			for _, t := range []bool{false, true} {
-				for _, p := range []int{0, 1, 2} {
+				for _, p := range allPayloads {
 					plan = append(plan, s3{env{c, t, p}, reduced})
 				}
 			}
 		}
-		plan = append(plan, s3{env{false, false, 0}, full}, s3{env{true, false, 1}, full}, s3{env{false, true, 2}, full}, s3{env{true, true, 2}, full})
+		plan = append(plan, s3{env{false, false, plNone}, full}, s3{env{true, false, plOne}, full}, s3{env{false, true, plTwo}, full}, s3{env{true, true, plTwo}, full},
+			s3{env{false, false, plEmpty}, full})
 	}
 	shapes := valueShapes()
 	for v := 1; v <= 5; v++ {
@@ -1261,10 +1318,10 @@ func generators(thorough bool) []generator {
 	// S5: BATCH product.
 	bcons := []uint16{0xffff}
 	bcomps := []bool{false}
-	bpl := []int{0, 1}
+	bpl := []int{plNone, plOne, plEmpty}
 	btss := []int{tsOff, tsFixed}
 	if thorough {
-		bcons, bcomps, bpl, btss = allCons, []bool{false, true}, []int{0, 1, 2}, []int{tsOff, tsFixed, tsNegative, tsNow}
+		bcons, bcomps, bpl, btss = allCons, []bool{false, true}, allPayloads, []int{tsOff, tsFixed, tsNegative, tsNow}
 	}
 	for v := 2; v <= 5; v++ {
 		for _, c := range bcons {
@@ -1313,18 +1370,24 @@ type local struct {
 func main() {
 	r := report.New("C03", "exploration")
 	r.SetRule("bounded-exhaustive product: (S1) every stream id 0..127 (v1,v2) / 0..32767 (v3-v5) x every request kind of the version; " +
-		"(S2) version x kind x boundary streams {1,127,128,32767} x compression off/snappy x tracing x custom payload {none,1,2 entries} x per-kind body variants; " +
-		"(S3) for QUERY and EXECUTE the product of value shapes (none | positional | named | mixed; count 0,1,2; every value normal/null/unset/empty) x consistency x skip-metadata x page size x paging state x serial consistency x default timestamp x keyspace; " +
-		"(S4) 65535 values / 65535 batch entries; (S5) BATCH: type x entries (0,1,2 of 12 entry shapes: prepared/unprepared, 0..2 values of each kind, named) x consistency x serial consistency x timestamp x payload. " +
+		"(S2) version x kind x boundary streams {1,127,128,32767} x compression off/snappy x tracing x custom payload {nil map, non-nil map without entries, 1 entry, 2 entries} for every kind whose builder can carry one (QUERY, PREPARE, EXECUTE, BATCH) x per-kind body variants; " +
+		"(S3) for QUERY and EXECUTE the product of value shapes (none | positional | named | mixed; count 0,1,2; every value normal/null/unset/empty) x consistency x skip-metadata x page size x paging state x serial consistency x default timestamp x keyspace x custom payload {nil, empty non-nil, 1 entry}; " +
+		"(S4) 65535 values / 65535 batch entries; (S5) BATCH: type x entries (0,1,2 of 12 entry shapes: prepared/unprepared, 0..2 values of each kind, named) x consistency x serial consistency x timestamp x custom payload {nil, empty non-nil, 1 entry (thorough: + 2 entries)}. " +
+		"(live) the public API (Session.Query / NewBatch with every option) on a real Conn after the real handshake and on a whole Session (Query.Exec / Session.ExecuteBatch through executor, policy and pool) against a scripted node that decodes with the reference codec: protocol v1-v5 x snappy (x authentication x USE keyspace) x QUERY / EXECUTE / BATCH shapes x custom payload {nil, empty non-nil, 1, 2 entries}, and BATCH statement counts {1, 65534, 65535 (must go out, every statement recovered), 65536, 65537 (cannot be expressed: whatever reaches the node must be well-formed and be the request)} per version x compression. " +
 		"Each frame is built by gocql's own write*Frame.buildFrame on a real framer and decoded by the independent reference codec. " +
 		"A case is distinct by its ask; non-trivial when a frame was produced, decoded by the reference and compared field by field with the ask.")
 	r.Assume("refcql/frame is a faithful reading of native_protocol_v1..v5.spec (cross-checked by hand-computed examples and a recorded frame)",
 		"v5 is the dialect the driver implements (legacy envelope, beta flag, [int] flags, keyspace; no result_metadata_id / now_in_seconds)",
 		"github.com/golang/snappy decodes what a Cassandra node would decode",
-		"counts above 65535 and strings longer than the notation can carry are outside the stated bounds")
+		"value counts above 65535 (they come from the node's prepared metadata) and strings longer than the notation can carry are outside the stated bounds; statement counts above 65535 are asked on the public path only (the builder objects alone send nothing)")
 
 	thorough := r.Thorough()
 	gens := generators(thorough)
+	// development aid: C03_ONLY=live skips the builder-level enumeration (the run is then reported as not exhaustive)
+	onlyLive := os.Getenv("C03_ONLY") == "live"
+	if onlyLive {
+		gens = nil
+	}
 	work := make(chan generator, len(gens))
 	for _, g := range gens {
 		work <- g
@@ -1432,7 +1495,7 @@ func main() {
 	// public-path binding: guard probes and the live connection
 	runPublicPath(r)
 
-	os.Exit(r.Finish(true))
+	os.Exit(r.Finish(!onlyLive))
 }
 
 func sortedMap(m map[string]int64) map[string]int64 {
